@@ -10,7 +10,8 @@ from ..aiolib import *
 EXPLANATION = ("C02: exhaustive check of the aio provider protocol (result of nni_aio_start honoured, no park "
                "before a successful start, cancel functions test ownership under the provider lock and un-park "
                "before finishing, no double finish on a path, no inline completion under a lock, stop/fini wait "
-               "for the task) over all providers of the build. Necessary conditions for exactly-once completion.")
+               "for the task) over all providers of the build. Necessary conditions for exactly-once completion."
+               " Also: the expiry scan accounts for every entry it walks past (E1), and whoever takes the head off a head-gated request queue starts the next transfer (S3).")
 ASSUMPTIONS = ["interleaving-level behaviour of the expire thread and of user code is not decided"]
 
 
